@@ -749,6 +749,569 @@ fn random_string(rng: &mut Rng, class: u64, max_len: i64) -> S {
         .collect()
 }
 
+// ---------------------------------------------------------------------------------------------
+// Family `immutability`: a string built-in never changes its arguments.
+//
+// A built-in call hands its arguments over as positional variables of a fresh context and the call protocol writes
+// every by-reference argument (a variable, an array element, a TYPE member) back to the caller afterwards: whatever
+// the built-in does to its copy of an argument ends up in the caller's variable.  So every function is called with
+// each argument held in a plain variable, an array element, a TYPE member, a `STRING * n` variable and a
+// by-reference parameter inside a SUB (numeric arguments in variables of the same kind), over the boundary values
+// of the other arguments, and after the call EVERY argument variable is printed again: it must hold what it held
+// before (`arg-mutated:<fn>`); the call is then evaluated a second time on the same variables (`second-call:<fn>`),
+// the variables are printed again, and result and argument are used in one expression (`combined:<fn>`).  The laws
+// of the property (LEFT$ + MID$ = s, ...) go through the same treatment as expressions that must print -1 twice.
+// Oracle: the reference functions of this file (`Op::oracle`); for ENVIRON$ (no reference) only that both
+// evaluations agree and the arguments survive.
+// ---------------------------------------------------------------------------------------------
+
+#[derive(Clone, Copy, PartialEq, Eq, Debug, PartialOrd, Ord)]
+enum Holder {
+    Plain,
+    Elem,
+    Member,
+    Fixed,
+    Param,
+}
+
+impl Holder {
+    fn name(self) -> &'static str {
+        match self {
+            Holder::Plain => "variable",
+            Holder::Elem => "array-element",
+            Holder::Member => "type-member",
+            Holder::Fixed => "fixed-length-string",
+            Holder::Param => "byref-parameter",
+        }
+    }
+}
+
+#[derive(Clone, Debug)]
+struct ImmCase {
+    fname: &'static str,
+    /// the expression, with {s} {t} {n} {m} {d} for the argument variables
+    template: &'static str,
+    s: Option<S>,
+    t: Option<S>,
+    n: Option<i32>,
+    m: Option<i32>,
+    /// 0: 2.5, 1: the double whose eight bytes are "ABCDEFG@"
+    d: Option<u8>,
+    numeric: bool,
+    /// the line `PRINT <expression>` must produce (None: no reference, both evaluations must agree)
+    want: Option<String>,
+}
+
+#[derive(Clone, Copy, PartialEq, Debug)]
+enum LineKind {
+    Marker,
+    Result1,
+    Arg,
+    Result2,
+    Combined,
+}
+
+struct ImmBlock {
+    fname: &'static str,
+    holder: Holder,
+    main: Vec<String>,
+    subs: Vec<String>,
+    /// fixed-length lengths needed as TYPE members / DIMs: (member, F-variable, G-variable)
+    member_lens: Vec<usize>,
+    dims: Vec<String>,
+    expected: Vec<(LineKind, Option<String>)>,
+}
+
+fn text_of(s: &[u32]) -> String {
+    s.iter().map(|&c| char::from_u32(c).unwrap_or('?')).collect()
+}
+
+fn num_line(n: i64) -> String {
+    if n < 0 { format!("{}", n) } else { format!(" {}", n) }
+}
+
+fn line_of(o: &Out) -> Option<String> {
+    match o {
+        Out::Str(s) => Some(format!("[{}]", text_of(s))),
+        Out::Num(n) => Some(num_line(*n)),
+        _ => None,
+    }
+}
+
+fn imm_block(c: &ImmCase, holder: Holder, k: usize) -> Option<ImmBlock> {
+    let ls = c.s.as_ref().map(|s| s.len());
+    let lt = c.t.as_ref().map(|s| s.len());
+    if matches!(holder, Holder::Member | Holder::Fixed) {
+        // a STRING * n holds exactly n characters: n = LEN(s), so there is no STRING * 0
+        if ls == Some(0) || ls.unwrap_or(1) > 9 || lt == Some(0) || lt.unwrap_or(1) > 9 {
+            return None;
+        }
+        // without a string argument the numeric arguments are TYPE members; `Fixed` would be `Plain` again
+        if holder == Holder::Fixed && ls.is_none() {
+            return None;
+        }
+    }
+    let mut member_lens = vec![];
+    let mut dims = vec![];
+    // (name used by the call, name of the caller's variable)
+    let names = |role: char| -> String {
+        match (holder, role) {
+            (Holder::Plain, 's') => "S$".into(),
+            (Holder::Plain, 't') => "T$".into(),
+            (Holder::Plain | Holder::Fixed, 'n') => "N%".into(),
+            (Holder::Plain | Holder::Fixed, 'm') => "M%".into(),
+            (Holder::Plain | Holder::Fixed, 'd') => "D#".into(),
+            (Holder::Elem, 's') => "SA$(2)".into(),
+            (Holder::Elem, 't') => "TA$(3)".into(),
+            (Holder::Elem, 'n') => "NA%(1)".into(),
+            (Holder::Elem, 'm') => "NA%(3)".into(),
+            (Holder::Elem, 'd') => "DA#(2)".into(),
+            (Holder::Member, 's') => format!("R.S{}", ls.unwrap()),
+            (Holder::Member, 't') => format!("R2.S{}", lt.unwrap()),
+            (Holder::Member, 'n') => "R.N".into(),
+            (Holder::Member, 'm') => "R.M".into(),
+            (Holder::Member, 'd') => "R.D".into(),
+            (Holder::Fixed, 's') => format!("F{}", ls.unwrap()),
+            (Holder::Fixed, 't') => format!("G{}", lt.unwrap()),
+            (Holder::Param, 's') => "PS$".into(),
+            (Holder::Param, 't') => "PT$".into(),
+            (Holder::Param, 'n') => "PN%".into(),
+            (Holder::Param, 'm') => "PM%".into(),
+            (Holder::Param, 'd') => "PD#".into(),
+            _ => unreachable!(),
+        }
+    };
+    let actual = |role: char| -> String {
+        match role {
+            's' => "S$".into(),
+            't' => "T$".into(),
+            'n' => "N%".into(),
+            'm' => "M%".into(),
+            _ => "D#".to_owned(),
+        }
+    };
+    match holder {
+        Holder::Elem => {
+            dims.push("DIM SA$(1 TO 3)".to_owned());
+            dims.push("DIM TA$(1 TO 3)".to_owned());
+            dims.push("DIM NA%(1 TO 3)".to_owned());
+            dims.push("DIM DA#(1 TO 2)".to_owned());
+        }
+        Holder::Member => {
+            member_lens.extend(ls);
+            member_lens.extend(lt);
+        }
+        Holder::Fixed => {
+            dims.push(format!("DIM F{} AS STRING * {}", ls.unwrap(), ls.unwrap()));
+            if let Some(l) = lt {
+                dims.push(format!("DIM G{} AS STRING * {}", l, l));
+            }
+        }
+        _ => {}
+    }
+    let roles: Vec<char> = [('s', c.s.is_some()), ('t', c.t.is_some()), ('n', c.n.is_some()), ('m', c.m.is_some()), ('d', c.d.is_some())]
+        .iter()
+        .filter(|(_, p)| *p)
+        .map(|(r, _)| *r)
+        .collect();
+    let fill = |template: &str, f: &dyn Fn(char) -> String| -> String {
+        let mut e = template.to_owned();
+        for r in ['s', 't', 'n', 'm', 'd'] {
+            if e.contains(&format!("{{{}}}", r)) {
+                e = e.replace(&format!("{{{}}}", r), &f(r));
+            }
+        }
+        e
+    };
+    let assign = |name: &str, role: char| -> String {
+        match role {
+            's' => format!("{} = {}", name, lit(c.s.as_ref().unwrap())),
+            't' => format!("{} = {}", name, lit(c.t.as_ref().unwrap())),
+            'n' => format!("{} = {}", name, c.n.unwrap()),
+            'm' => format!("{} = {}", name, c.m.unwrap()),
+            _ => {
+                if c.d == Some(0) {
+                    format!("{} = 2.5", name)
+                } else {
+                    format!("{} = CVD(\"ABCDEFG@\")", name)
+                }
+            }
+        }
+    };
+    // PRINT statement that shows an argument variable, and the line it must produce
+    let show = |name: &str, role: char| -> (String, String) {
+        match role {
+            's' => (format!("PRINT \"[\" + {} + \"]\"", name), format!("[{}]", text_of(c.s.as_ref().unwrap()))),
+            't' => (format!("PRINT \"[\" + {} + \"]\"", name), format!("[{}]", text_of(c.t.as_ref().unwrap()))),
+            'n' => (format!("PRINT {}", name), num_line(c.n.unwrap() as i64)),
+            'm' => (format!("PRINT {}", name), num_line(c.m.unwrap() as i64)),
+            _ => {
+                if c.d == Some(0) {
+                    (format!("PRINT {}", name), " 2.5".to_owned())
+                } else {
+                    (format!("PRINT ({} = CVD(\"ABCDEFG@\"))", name), "-1".to_owned())
+                }
+            }
+        }
+    };
+    let mut main: Vec<String> = vec![format!("PRINT \"#{}\"", k)];
+    let mut subs: Vec<String> = vec![];
+    let mut expected: Vec<(LineKind, Option<String>)> = vec![(LineKind::Marker, Some(format!("#{}", k)))];
+    // the statements that call and look, written with the names of `names`
+    let mut body: Vec<String> = vec![];
+    let mut body_expected: Vec<(LineKind, Option<String>)> = vec![];
+    let expr = fill(c.template, &names);
+    let print_result = if c.numeric { format!("PRINT ({})", expr) } else { format!("PRINT \"[\" + {} + \"]\"", expr) };
+    for (round, kind) in [LineKind::Result1, LineKind::Result2].iter().enumerate() {
+        body.push(print_result.clone());
+        body_expected.push((*kind, c.want.clone()));
+        for &r in &roles {
+            let (stmt, want) = show(&names(r), r);
+            body.push(stmt);
+            body_expected.push((LineKind::Arg, Some(want)));
+        }
+        let _ = round;
+    }
+    // result and argument in ONE expression
+    if let Some(w) = &c.want {
+        if c.s.is_some() {
+            let st = text_of(c.s.as_ref().unwrap());
+            if c.numeric {
+                body.push(format!("PRINT ({}); \"[\" + {} + \"]\"", expr, names('s')));
+                body_expected.push((LineKind::Combined, Some(format!("{} [{}]", w, st))));
+            } else {
+                body.push(format!("PRINT \"[\" + {} + \"|\" + {} + \"]\"", expr, names('s')));
+                body_expected.push((LineKind::Combined, Some(format!("{}|{}]", &w[..w.len() - 1], st))));
+            }
+        } else if c.n.is_some() {
+            if c.numeric {
+                body.push(format!("PRINT ({}); {}", expr, names('n')));
+                body_expected.push((LineKind::Combined, Some(format!("{} {}", w, num_line(c.n.unwrap() as i64)))));
+            } else {
+                body.push(format!("PRINT \"[\" + {} + \"]\"; {}", expr, names('n')));
+                body_expected.push((LineKind::Combined, Some(format!("{}{}", w, num_line(c.n.unwrap() as i64)))));
+            }
+        }
+    }
+    if holder == Holder::Param {
+        for &r in &roles {
+            main.push(assign(&actual(r), r));
+        }
+        main.push(format!("T{} {}", k, roles.iter().map(|&r| actual(r)).collect::<Vec<_>>().join(", ")));
+        subs.push(format!("SUB T{} ({})", k, roles.iter().map(|&r| names(r)).collect::<Vec<_>>().join(", ")));
+        subs.extend(body.iter().map(|l| format!("  {}", l)));
+        subs.push("END SUB".to_owned());
+        expected.extend(body_expected);
+        // the caller's variables after the call
+        for &r in &roles {
+            let (stmt, want) = show(&actual(r), r);
+            main.push(stmt);
+            expected.push((LineKind::Arg, Some(want)));
+        }
+    } else {
+        for &r in &roles {
+            main.push(assign(&names(r), r));
+        }
+        main.extend(body);
+        expected.extend(body_expected);
+    }
+    Some(ImmBlock { fname: c.fname, holder, main, subs, member_lens, dims, expected })
+}
+
+fn imm_program(blocks: &[&ImmBlock]) -> String {
+    let mut text = String::new();
+    let mut lens: Vec<usize> = blocks.iter().flat_map(|b| b.member_lens.iter().copied()).collect();
+    lens.sort();
+    lens.dedup();
+    if blocks.iter().any(|b| b.holder == Holder::Member) {
+        text.push_str("TYPE Rec\n");
+        for l in &lens {
+            text.push_str(&format!("  S{} AS STRING * {}\n", l, l));
+        }
+        text.push_str("  N AS INTEGER\n  M AS INTEGER\n  D AS DOUBLE\nEND TYPE\nDIM R AS Rec\nDIM R2 AS Rec\n");
+    }
+    let mut seen: std::collections::BTreeSet<&str> = Default::default();
+    for b in blocks {
+        for d in &b.dims {
+            if seen.insert(d.as_str()) {
+                text.push_str(d);
+                text.push('\n');
+            }
+        }
+    }
+    text.push_str("ON ERROR GOTO Handler\n");
+    for b in blocks {
+        for l in &b.main {
+            text.push_str(l);
+            text.push('\n');
+        }
+    }
+    text.push_str("END\nHandler:\nPRINT \"E\"; ERR\nRESUME NEXT\n");
+    for b in blocks {
+        for l in &b.subs {
+            text.push_str(l);
+            text.push('\n');
+        }
+    }
+    text
+}
+
+/// The output lines of every block (its marker line included), `None` for a block whose marker never appeared.
+fn imm_run(blocks: &[&ImmBlock], programs: &mut u64) -> Vec<Option<Vec<String>>> {
+    *programs += 1;
+    let text = imm_program(blocks);
+    match run_program(&text, 20_000_000) {
+        Ran::Done { lines, err } => {
+            let lines: Vec<String> = lines.iter().map(|l| String::from_utf8_lossy(l).to_string()).collect();
+            let mut res: Vec<Option<Vec<String>>> = vec![None; blocks.len()];
+            let mut at: Option<usize> = None;
+            for l in lines {
+                let marker = blocks.iter().position(|b| b.expected[0].1.as_deref() == Some(l.as_str()));
+                if let Some(i) = marker {
+                    at = Some(i);
+                    res[i] = Some(vec![]);
+                }
+                if let Some(i) = at {
+                    res[i].as_mut().unwrap().push(l);
+                }
+            }
+            if let (Some(code), Some(i)) = (err, at) {
+                res[i].as_mut().unwrap().push(format!("run ended with error {}", code));
+            }
+            res
+        }
+        Ran::FrontEnd(e) if blocks.len() == 1 => vec![Some(vec![format!("front end: {}", e)])],
+        Ran::Panic if blocks.len() == 1 => vec![Some(vec!["panic".to_owned()])],
+        _ => {
+            // find the culprit: halves
+            let mid = blocks.len() / 2;
+            let mut res = imm_run(&blocks[..mid], programs);
+            res.extend(imm_run(&blocks[mid..], programs));
+            res
+        }
+    }
+}
+
+/// First line of the block that is not what it must be: (index, kind, wanted).
+fn imm_verdict(b: &ImmBlock, got: &Option<Vec<String>>) -> Option<(usize, LineKind, String)> {
+    let got = match got {
+        Some(g) => g,
+        None => return Some((0, LineKind::Marker, b.expected[0].1.clone().unwrap_or_default())),
+    };
+    let mut first_result: Option<String> = None;
+    for (i, (kind, want)) in b.expected.iter().enumerate() {
+        let g = match got.get(i) {
+            Some(g) => g,
+            None => return Some((i, *kind, want.clone().unwrap_or_else(|| "a line".into()))),
+        };
+        let want: String = match (kind, want) {
+            (_, Some(w)) => w.clone(),
+            (LineKind::Result1, None) => {
+                first_result = Some(g.clone());
+                continue;
+            }
+            (_, None) => first_result.clone().unwrap_or_default(),
+        };
+        let same = if want.ends_with(']') { *g == want } else { g.trim_end() == want.trim_end() };
+        if !same {
+            return Some((i, *kind, want));
+        }
+    }
+    if got.len() > b.expected.len() {
+        return Some((b.expected.len(), LineKind::Combined, "no further line".into()));
+    }
+    None
+}
+
+fn immutability_family(rep: &mut Report, programs: &mut u64) {
+    let st = |t: &str| -> S { t.chars().map(|c| c as u32).collect() };
+    let strings: Vec<S> = vec![st(""), st("a"), st("ab"), st("a b"), st(" ab "), st("Hello"), st("abcabc"), st("  xY  "), st("h\u{e9} llo")];
+    let counts = |len: usize, large: &[i32]| -> Vec<i32> {
+        let l = len as i32;
+        let mut v: Vec<i32> = vec![0, 1, l - 1, l, l + 1];
+        v.extend_from_slice(large);
+        v.retain(|x| *x >= 0);
+        v.sort();
+        v.dedup();
+        v
+    };
+    let starts = |len: usize| -> Vec<i32> {
+        let l = len as i32;
+        let mut v: Vec<i32> = vec![1, l, l + 1];
+        v.retain(|x| *x >= 1);
+        v.sort();
+        v.dedup();
+        v
+    };
+    let mut cases: Vec<ImmCase> = vec![];
+    let mut add = |fname: &'static str, template: &'static str, s: Option<&S>, t: Option<&S>, n: Option<i32>, m: Option<i32>, d: Option<u8>, numeric: bool, want: Option<String>| {
+        cases.push(ImmCase { fname, template, s: s.cloned(), t: t.cloned(), n, m, d, numeric, want });
+    };
+    let law = Some("-1".to_owned());
+    for s in &strings {
+        let len = s.len();
+        for n in counts(len, &[300, 32767]) {
+            add("left", "LEFT$({s}, {n})", Some(s), None, Some(n), None, None, false, Op::Left(s.clone(), n).oracle().as_ref().and_then(line_of));
+            add("right", "RIGHT$({s}, {n})", Some(s), None, Some(n), None, None, false, Op::Right(s.clone(), n).oracle().as_ref().and_then(line_of));
+            if n < 32767 {
+                add("leftmid", "LEFT$({s}, {n}) + MID$({s}, {n} + 1) = {s}", Some(s), None, Some(n), None, None, true, law.clone());
+                add("lensplit", "LEN(LEFT$({s}, {n})) + LEN(MID$({s}, {n} + 1)) = LEN({s})", Some(s), None, Some(n), None, None, true, law.clone());
+            }
+            if n as usize <= len {
+                add("rightmid", "RIGHT$({s}, {n}) = MID$({s}, LEN({s}) - {n} + 1)", Some(s), None, Some(n), None, None, true, law.clone());
+            }
+            if n >= 1 && len >= 1 {
+                add("instrprefix", "INSTR({s}, LEFT$({s}, {n})) = 1", Some(s), None, Some(n), None, None, true, law.clone());
+            }
+            for m in counts(len, &[]) {
+                if m <= n && n <= 300 {
+                    add("leftleft", "LEFT$(LEFT$({s}, {n}), {m}) = LEFT$({s}, {m})", Some(s), None, Some(n), Some(m), None, true, law.clone());
+                }
+            }
+        }
+        for n in starts(len).into_iter().chain([2]) {
+            add("mid2", "MID$({s}, {n})", Some(s), None, Some(n), None, None, false, Op::Mid2(s.clone(), n).oracle().as_ref().and_then(line_of));
+        }
+        for n in starts(len) {
+            for m in counts(len, &[300]) {
+                add("mid3", "MID$({s}, {n}, {m})", Some(s), None, Some(n), Some(m), None, false, Op::Mid3(s.clone(), n, m).oracle().as_ref().and_then(line_of));
+            }
+        }
+        // needles: the first character, the last two, the whole string, something that does not occur
+        let mut needles: Vec<S> = vec![st("zz")];
+        if len >= 1 {
+            needles.push(s[..1].to_vec());
+            needles.push(s[len.saturating_sub(2)..].to_vec());
+            needles.push(s.clone());
+        }
+        needles.sort();
+        needles.dedup();
+        for t in &needles {
+            add("instr2", "INSTR({s}, {t})", Some(s), Some(t), None, None, None, true, Op::Instr2(s.clone(), t.clone()).oracle().as_ref().and_then(line_of));
+            for n in starts(len) {
+                add("instr3", "INSTR({n}, {s}, {t})", Some(s), Some(t), Some(n), None, None, true, Op::Instr3(n, s.clone(), t.clone()).oracle().as_ref().and_then(line_of));
+            }
+            add("lenconcat", "LEN({s} + {t}) = LEN({s}) + LEN({t})", Some(s), Some(t), None, None, None, true, law.clone());
+        }
+        add("len", "LEN({s})", Some(s), None, None, None, None, true, Op::Len(s.clone()).oracle().as_ref().and_then(line_of));
+        add("ucase", "UCASE$({s})", Some(s), None, None, None, None, false, Op::Ucase(s.clone()).oracle().as_ref().and_then(line_of));
+        add("lcase", "LCASE$({s})", Some(s), None, None, None, None, false, Op::Lcase(s.clone()).oracle().as_ref().and_then(line_of));
+        add("ltrim", "LTRIM$({s})", Some(s), None, None, None, None, false, Op::Ltrim(s.clone()).oracle().as_ref().and_then(line_of));
+        add("rtrim", "RTRIM$({s})", Some(s), None, None, None, None, false, Op::Rtrim(s.clone()).oracle().as_ref().and_then(line_of));
+        add("trimboth", "LTRIM$(RTRIM$({s})) = RTRIM$(LTRIM$({s}))", Some(s), None, None, None, None, true, law.clone());
+        add("ucaselcase", "UCASE$(LCASE$({s})) = UCASE$({s})", Some(s), None, None, None, None, true, law.clone());
+        if len >= 1 {
+            for n in [0, 1, 2, 300] {
+                add("stringstr", "STRING$({n}, {s})", Some(s), None, Some(n), None, None, false, Op::StringStr(n, s.clone()).oracle().as_ref().and_then(line_of));
+            }
+        }
+    }
+    for n in [0, 1, 2, 300] {
+        add("space", "SPACE$({n})", None, None, Some(n), None, None, false, Op::Space(n).oracle().as_ref().and_then(line_of));
+        add("spacestring", "SPACE$({n}) = STRING$({n}, 32)", None, None, Some(n), None, None, true, law.clone());
+        for m in [32, 65, 233] {
+            add("stringcode", "STRING$({n}, {m})", None, None, Some(n), Some(m), None, false, Op::StringCode(n, m).oracle().as_ref().and_then(line_of));
+        }
+    }
+    for n in [32, 65, 126, 200, 255] {
+        add("chr", "CHR$({n})", None, None, Some(n), None, None, false, Op::Chr(n).oracle().as_ref().and_then(line_of));
+    }
+    for n in [0, 5, -5, 100, 32767, -32768] {
+        add("str", "STR$({n})", None, None, Some(n), None, None, false, Some(format!("[{}]", num_line(n as i64))));
+        add("valstr", "VAL(STR$({n})) = {n}", None, None, Some(n), None, None, true, law.clone());
+        add("lenvar", "LEN({n})", None, None, Some(n), None, None, true, Some(" 2".to_owned()));
+    }
+    add("str", "STR$({d})", None, None, None, None, Some(0), false, Some("[ 2.5]".to_owned()));
+    add("mkd", "MKD$({d})", None, None, None, None, Some(1), false, Some("[ABCDEFG@]".to_owned()));
+    add("cvd", "MKD$(CVD({s}))", Some(&st("ABCDEFG@")), None, None, None, None, false, Some("[ABCDEFG@]".to_owned()));
+    for t in ["42", " -7 ", "12abc", "", "3.5", "1E3", "x9"] {
+        // the numeric prefix VAL reads, as a whole number or a short decimal
+        let (canon, _) = val_prefix_oracle(t);
+        let v: f64 = if canon.is_empty() { 0.0 } else { canon.parse().unwrap_or(0.0) };
+        let line = if v == v.trunc() { num_line(v as i64) } else if v < 0.0 { format!("{}", v) } else { format!(" {}", v) };
+        add("val", "VAL({s})", Some(&st(t)), None, None, None, None, true, Some(line));
+    }
+    for t in ["PATH", "NO_SUCH_VARIABLE_C17"] {
+        add("environ", "ENVIRON$({s})", Some(&st(t)), None, None, None, None, false, None);
+    }
+    drop(add);
+
+    let holders = [Holder::Plain, Holder::Elem, Holder::Member, Holder::Fixed, Holder::Param];
+    let mut blocks: Vec<ImmBlock> = vec![];
+    for c in &cases {
+        for &h in &holders {
+            if let Some(b) = imm_block(c, h, blocks.len()) {
+                blocks.push(b);
+            }
+        }
+    }
+    let mut reported: std::collections::BTreeMap<String, u32> = Default::default();
+    let mut sampled = false;
+    for chunk in blocks.chunks(60) {
+        let refs: Vec<&ImmBlock> = chunk.iter().collect();
+        let got = imm_run(&refs, programs);
+        for (b, g) in chunk.iter().zip(got.iter()) {
+            rep.case(Some(format!("imm:{}", b.expected[0].1.as_deref().unwrap_or(""))));
+            rep.bump(&format!("immutability.{}.{}", b.fname, b.holder.name()));
+            if !sampled && b.holder == Holder::Member && b.fname == "leftmid" {
+                sampled = true;
+                rep.sample(J::s(imm_program(&[b])));
+            }
+            if imm_verdict(b, g).is_none() {
+                continue;
+            }
+            // the block on its own: a self-contained failing program
+            let alone = imm_run(&[b], programs);
+            let text = imm_program(&[b]);
+            let (i, kind, want, shown, batch_only) = match imm_verdict(b, &alone[0]) {
+                Some((i, kind, want)) => (i, kind, want, alone[0].clone(), false),
+                None => {
+                    let (i, kind, want) = imm_verdict(b, g).unwrap();
+                    (i, kind, want, g.clone(), true)
+                }
+            };
+            let what = match kind {
+                LineKind::Arg => "arg-mutated",
+                LineKind::Result1 => "result",
+                LineKind::Result2 => "second-call",
+                LineKind::Combined => "combined",
+                LineKind::Marker => "not-run",
+            };
+            let signature = format!("{}{}:{}", if batch_only { "batch-only:" } else { "" }, what, b.fname);
+            let n = reported.entry(format!("{}/{}", signature, b.holder.name())).or_insert(0);
+            *n += 1;
+            if *n > 2 {
+                rep.bump("immutability.further-failures-not-reported");
+                continue;
+            }
+            let shown = shown.unwrap_or_default();
+            rep.fail(Failure {
+                kind: Kind::ImplVsProperty,
+                signature,
+                input: if batch_only { imm_program(&refs).chars().take(4000).collect() } else { text },
+                implementation: format!("output line {}: {:?}  (all lines: {})", i + 1, shown.get(i).cloned().unwrap_or_else(|| "<missing>".into()), shown.join(" | ")),
+                expected: format!("output line {}: {:?}", i + 1, want),
+                note: format!(
+                    "arguments held in: {}; a built-in returns a value and leaves its argument variables as they were; evaluated twice on the same variables it answers the same; {}",
+                    b.holder.name(),
+                    match kind {
+                        LineKind::Arg => "an argument variable printed after the call no longer holds what it was given",
+                        LineKind::Result1 => "the result of the first call is not what the property prescribes",
+                        LineKind::Result2 => "the second evaluation on the same variables differs from what the property prescribes",
+                        LineKind::Combined => "result and argument used in one expression",
+                        LineKind::Marker => "the block did not run",
+                    }
+                ),
+            });
+        }
+    }
+    rep.exhaustive_parts.push(format!(
+        "argument immutability: {} calls / laws ({} blocks) = every string built-in x argument holders {{variable, array element, TYPE member, STRING * n, by-reference parameter}} x 9 strings x counts {{0, 1, LEN-1, LEN, LEN+1, 300, 32767}} x starts {{1, LEN, LEN+1}}",
+        cases.len(),
+        blocks.len()
+    ));
+}
+
 fn main() {
     std::panic::set_hook(Box::new(|_| {}));
     let mut rng = Rng::from_env();
@@ -761,7 +1324,7 @@ fn main() {
          nested call); exhaustive LTRIM$/RTRIM$ over {TAB,VT,FF,blank,NEL,NBSP,x} up to length 3; random printable-ASCII and \
          Latin-1 strings up to length 40 with boundary counts; VAL(STR$(k)) over all 65536 INTEGERs, boundary+sampled \
          LONGs and whole DOUBLE (|k| < 2^53) / SINGLE (|k| <= 2^24) values, with the run-time type and exact value of VAL's \
-         result read from its result slot by the per-instruction observer; VAL on random scanner-alphabet strings (model only); the full VAL scanner (fractions, prefixes, blanks, exponent letters, integers beyond 2^53) on dyadic and random decimals, bit for bit against the model valQ, and VAL(STR$(x)) for fractional SINGLE / DOUBLE x = n/2^k. class = (call, style); a case is trivial iff all its \
+         result read from its result slot by the per-instruction observer; VAL on random scanner-alphabet strings (model only); the full VAL scanner (fractions, prefixes, blanks, exponent letters, integers beyond 2^53) on dyadic and random decimals, bit for bit against the model valQ, and VAL(STR$(x)) for fractional SINGLE / DOUBLE x = n/2^k. argument immutability (family immutability: every string built-in and every law with its arguments held in a variable, an array element, a TYPE member, a STRING * n variable and a by-reference parameter, over boundary counts and starts; every argument variable printed after the call, the call evaluated twice, result and argument in one expression). class = (call, style); a case is trivial iff all its \
          string operands are empty.",
     );
     let thorough = rep.is_thorough();
@@ -931,6 +1494,9 @@ fn main() {
     // ---- 4. VAL(STR$(k)) ---------------------------------------------------------------------------
     let mut rep = cx.rep;
     let mut programs = cx.programs;
+    // ---- 3b. argument immutability (family `immutability`, see above) ---------------------------------
+    immutability_family(&mut rep, &mut programs);
+    eprintln!("[c17] immutability done at {:?}", t0.elapsed());
     // all INTEGERs, one program
     {
         let text = "FOR K& = -32768 TO 32767\nA% = K&\nPRINT STR$(A%); \"|\"; VAL(STR$(A%))\nNEXT\n";
